@@ -360,6 +360,17 @@ func (c *client) doIter(txn *badger.Txn, rec *TxnRec, pending map[string]model.V
 }
 
 func (c *client) consume(it *badger.Iterator, rr *ReadRec, limit int) {
+	if c.r.Intn(3) == 0 {
+		// the iterator is re-used: it first stands somewhere else (another Seek, a few steps, no item
+		// is looked at), then the recorded positioning follows, often backwards from there
+		it.Seek(c.key())
+		for i := c.r.Intn(4); i > 0 && it.Valid(); i-- {
+			it.Next()
+		}
+		if c.r.Intn(4) == 0 {
+			it.Rewind()
+		}
+	}
 	if rr.Rewind {
 		it.Rewind()
 	} else {
